@@ -26,6 +26,12 @@ def run(rep, tier, seed, replay):
                 "that build, or that have a bound or nesting beyond the ordinary")
     exprs = lib.inputs(rep, "C05", tier, seed, 2500, 30000, replay, malformed_share=0.35)
     if replay is None:
+        # LENGTH without nesting or large numbers: many sibling alternations / optional repetitions / tree wildcards in one
+        # concatenation (whatever a fold accumulates per sibling must not multiply), every query asked of each
+        exprs += [e for e in ["{a,b/c}" * 24, "{a,b/c}" * 40, "{a,b}" * 40, "x{a,b/c}y/" * 20 + "z", "<a:0,1>" * 30 + "b", "{a,b/c,d/e/f}" * 16,
+                              "<a/:0,1>" * 24 + "b", "{a,<b/:1,2>}" * 20, "{a/,b/c/}" * 24 + "*", "{*,?a}/" * 20 + "x", "a{b,c/d}" * 32]
+                  if e not in set(exprs)]
+    if replay is None:
         exprs += HUGE + [nested(n, k) for k in range(3) for n in (10, 60, 100, 124, 125, 150)]
         if tier != "quick":
             exprs += [nested(n, k) for k in range(3) for n in (500, 2000, 5000, 20000)]
